@@ -126,6 +126,16 @@ CHECKS = {
               "Open known findings: generic all-at-once variants correct virtual qubit 0; NV multi-pair with another live qubit does not compile."),
         technique="contract-based deductive verification: symbolic execution of the emitted correction code on the real executor (symbolic Bell states), exact Pauli algebra, finite post-processing table",
         design_ref="5.C10"),
+    "C08": dict(
+        category="proof",
+        text=("Translation validation per program schema, for all data values of the schema: the vanilla program and its real NV transpilation are executed on the real "
+              "executor with symbolic branch data / outcomes; equal classical memory, same measurements, and exact (cyclotomic, up to global phase) equality of the "
+              "operator applied between measurements; structural clauses (no vanilla gate left, non-gate instructions keep order/identity, controlled rotations are "
+              "electron-controlled). Eleven schemas: loops, conditionals (all expanding gates as first body gate), end label, backward jumps, set- and load-written "
+              "qubit registers, 1..3 carbons, both debug settings. The quantifier over program SHAPES is covered by the schema list, not by an unbounded proof. "
+              "Open known finding: two-qubit gate on a load-written qubit register."),
+        technique="contract-based deductive verification (translation validation): vanilla vs. real NV-transpiled program on the real executor with symbolic data, z3 LIA + exact cyclotomic operator identities",
+        design_ref="5.C08"),
     "C19": dict(
         category="proof",
         text=("Loop-invariant proof of get_angle_spec_from_float over the reals for every angle and every tolerance in [1e-9, 1]: the real loop "
